@@ -421,6 +421,11 @@ def run_solve(project, tdir, neq, fields, fault_levels, stub_handle=False, index
             offs, _, _ = M_.struct_layout("%class.Naunet")
             fo = {n: o for n, (o, _) in zip(fields, offs)}
             captured["ab_init"] = [st.load("this", fo["ab_init_"] + 8 * i) for i in range(neq)]
+            # what the real HandleError may write: the caller's abundances and the checkpoint array (never ab_init_:
+            # that frame condition is an obligation of the runs with the real HandleError inlined)
+            for i in range(neq):
+                st.store("ab", 8 * i, z3.Real(f"handle_ab_{i}"))
+                st.store("this", fo["ab_tmp_"] + 8 * i, z3.Real(f"handle_tmp_{i}"))
             h = M_.fresh_int("handle_ret")
             captured["h"] = h
             integ.assumes.append(z3.Or(h == 0, h == 1))
@@ -461,7 +466,7 @@ def check_solve(chk, project, tdir, neq, fields):
     setup_ok = z3.And([g >= 0 for _, g in integ.setup_flags] or [z3.BoolVal(True)])
     retz = R_int(ret)
 
-    def ask(name, bad, expect="unsat", what=None):
+    def ask(name, bad, expect="unsat", what=None, kind="ladder"):
         t1 = time.time()
         r = str(s.check(bad))
         chk.solver_s += time.time() - t1
@@ -472,7 +477,10 @@ def check_solve(chk, project, tdir, neq, fields):
             elif r == "sat":
                 m = s.model()
                 trace = {str(dd): str(m[dd]) for dd in m.decls() if str(dd).startswith(("flag", "tret", "setup", "handle", "dt", "reinit"))}
-                confirm_ladder_violation(chk, project, tdir, name, trace, 0, what)
+                if kind == "log":
+                    confirm_log_violation(chk, project, tdir, name, trace)
+                else:
+                    confirm_ladder_violation(chk, project, tdir, name, trace, 0, what)
             else:
                 chk.unknown(name, "solver " + r)
         elif r == "sat":
@@ -492,14 +500,17 @@ def check_solve(chk, project, tdir, neq, fields):
     ask(f"{tag}:flag-propagated", z3.And(setup_ok, retz != cap["h"]))
     ask(f"{tag}:setup-failure=>FAIL", z3.And(z3.Not(setup_ok), retz != FAIL))
     # FAIL => initial state logged
-    logged = {}
-    for g, ev in st.log:
-        if ev[0] == "print" and ev[1] and re.search(r"\by\[%d\] = ", ev[1]):
-            i, v = ev[2][0], ev[2][1]
-            logged.setdefault(i if not is_sym(i) else str(i), []).append((g, R(v)))
-    for i in range(neq):
-        ok_i = z3.Or([z3.And(g, v == y0[i]) for g, v in logged.get(i, [])] or [z3.BoolVal(False)])
-        ask(f"{tag}:FAIL=>initial-state-logged[{i}]", z3.And(setup_ok, cap["h"] == FAIL, z3.Not(ok_i)))
+    def logged_obligations(st_, cond_fail, label):
+        logged = {}
+        for g, ev in st_.log:
+            if ev[0] == "print" and ev[1] and re.search(r"\by\[%d\] = ", ev[1]):
+                i, v = ev[2][0], ev[2][1]
+                logged.setdefault(i if not is_sym(i) else str(i), []).append((g, R(v)))
+        for i in range(neq):
+            ok_i = z3.Or([z3.And(g, v == y0[i]) for g, v in logged.get(i, [])] or [z3.BoolVal(False)])
+            ask(f"{label}:FAIL=>initial-state-logged[{i}]", z3.And(cond_fail, z3.Not(ok_i)), kind="log")
+
+    logged_obligations(st, z3.And(setup_ok, cap["h"] == FAIL), tag)
     ask(f"{tag}:reach-FAIL", z3.And(setup_ok, retz == FAIL), expect="sat")
     ask(f"{tag}:reach-SUCCESS", z3.And(setup_ok, retz == SUCCESS), expect="sat")
     chk.extra["states"] = chk.extra.get("states", 0) + M.merges + 1
@@ -527,6 +538,10 @@ def check_solve(chk, project, tdir, neq, fields):
         abf = [R(st.load("ab", 8 * i)) for i in range(neq)]
         ask(f"{tag}:monolithic(symbolic faults in levels<={levels}):SUCCESS=>exact-interval", z3.And(retz == SUCCESS, z3.Or([abf[i] != y0[i] + dt for i in range(neq)])))
         ask(f"{tag}:monolithic(levels<={levels}):return-in-{{0,1}}", z3.Not(z3.Or(retz == 0, retz == 1)))
+        offs_, _, _ = M.struct_layout("%class.Naunet")
+        fo_ = {n: o for n, (o, _) in zip(fields, offs_)}
+        ask(f"{tag}:monolithic(levels<={levels}):HandleError-keeps-ab_init_", z3.Or([R(st.load("this", fo_["ab_init_"] + 8 * i)) != y0[i] for i in range(neq)]), kind="log")
+        logged_obligations(st, retz == FAIL, f"{tag}:monolithic(levels<={levels})")
         ask(f"{tag}:monolithic(levels<={levels}):reach-SUCCESS-after-failure", z3.And(retz == SUCCESS, integ.flags[0][0] < 0), expect="sat")
         chk.extra["states"] += M.merges + 1
         chk.extra["transitions"] += len(integ.flags) * 3
@@ -570,6 +585,7 @@ def check_solve(chk, project, tdir, neq, fields):
         retz = R_int(ret)
         abf = [R(st.load("ab", 8 * i)) for i in range(neq)]
         ask(f"{tag}:script{k}:SUCCESS=>exact-interval", z3.And(retz == SUCCESS, z3.Or([abf[i] != y0[i] + dt for i in range(neq)])), what=None)
+        logged_obligations(st, retz == FAIL, f"{tag}:script{k}")
         # the return value against the documented ladder (an unrecoverable or unrepaired failure is never SUCCESS)
         seq, reinit = script_to_sequence(script)
         want, _ = ladder_reference(seq, reinit)
@@ -977,8 +993,16 @@ def native_ladder(project, tdir, dt, script, reinit=()):
     for f, fr in script:
         args += [str(int(f)), repr(float(fr))]
     args += [str(len(reinit))] + [str(int(x)) for x in reinit]
+    rec = os.path.join(b, "naunet_error_record.txt")
+    if os.path.exists(rec):
+        os.unlink(rec)
     r = subprocess.run(args, capture_output=True, text=True, cwd=b, timeout=60)
     out = {"y": {}}
+    if os.path.exists(rec):
+        txt = open(rec, errors="replace").read()
+        if "Initial condition" in txt:
+            blk = txt[txt.rindex("Initial condition"):]
+            out["logged"] = {int(i): float(v) for i, v in re.findall(r"^\s*y\[(\d+)\] = (\S+?);", blk, re.M)}
     for l in r.stdout.splitlines():
         p_ = l.split()
         if p_[0] == "ret":
@@ -1031,6 +1055,47 @@ def confirm_ladder_violation(chk, project, tdir, name, trace, level, what=None):
         chk.unknown(name, f"sat ({trace}) but native mock unavailable: {e}")
         return
     chk.unknown(name, f"solver found a candidate ({str(trace)[:200]}) but {tried} scripted native runs of the real Solve behave correctly: invariant too weak or encoding artefact")
+    chk.harness_error(f"non-reproducing counterexample for {name}")
+
+
+LOG_SCRIPTS = [
+    ([(-1, 0.3), (-7, 0.5)], []),
+    ([(-2, 0.5), (-3, 0.25), (-9, 0.5)], []),
+    ([(-4, 0.25)], [-22]),
+    ([(-1, 0.5)] + [(-2, 0.5)] * 5, []),
+    ([(-3, 0.5)] + [(0, 1.0)] * 4 + [(-1, 0.5), (-5, 0.1)], []),
+    ([(-7, 0.5)], []),
+    ([(-6, 0.5), (-8, 0.5)], []),
+]
+
+
+def confirm_log_violation(chk, project, tdir, name, trace):
+    """the solver says a failing Solve may log something else than the state it was entered with: run scripted
+    failures on the real compiled naunet.cpp and read naunet_error_record.txt back"""
+    tried = 0
+    try:
+        for script, reinit in LOG_SCRIPTS:
+            for dt in (1.0, 3.15e7):
+                out = native_ladder(project, tdir, dt, script, reinit=reinit)
+                tried += 1
+                chk.replays_done += 1
+                if out.get("ret") != FAIL:
+                    continue
+                lg = out.get("logged")
+                neq = len(out["y"])
+                if not lg or len(lg) < neq:
+                    chk.violation(name, f"Solve returned failure without logging the initial state (integrator flags {[f for f, _ in script]}, re-initialisation flags {reinit})", {"target": tdir, "dt": dt, "script": script, "reinit_flags": reinit, "native": out, "solver_trace": trace})
+                    return
+                bad = {i: v for i, v in lg.items() if abs(v - (1.0 + i)) > 1e-5 * (1.0 + i)}
+                if bad:
+                    i = min(bad)
+                    chk.violation(name, f"Solve returned failure and logged y[{i}] = {bad[i]!r} as the initial condition; it was entered with y[{i}] = {1.0 + i} (integrator flags {[f for f, _ in script]} with partial progress {[fr for _, fr in script]}, dt = {dt})",
+                                  {"target": tdir, "dt": dt, "script": script, "reinit_flags": reinit, "native": out, "entered_with": {k: 1.0 + k for k in lg}, "solver_trace": trace})
+                    return
+    except Inconclusive as e:
+        chk.unknown(name, f"sat ({trace}) but native mock unavailable: {e}")
+        return
+    chk.unknown(name, f"solver found a candidate ({str(trace)[:200]}) but {tried} scripted native failures of the real Solve log the entry state")
     chk.harness_error(f"non-reproducing counterexample for {name}")
 
 
